@@ -148,6 +148,10 @@ static J gen_world_surface(Chooser &ch)
     }
   c["corner_listed"] = corner_listed;
   c["listed"] = listed;
+  // where the bare '[value]' entry stands in the list: first (as in every example), or after some / all of the interior points.
+  // It is kept in front of the listed corners, so that "the corners' default" and "a listed corner replaces it" do not depend on
+  // an order the documentation does not define.
+  c["bare_pos"] = ch.chance(50) ? 0 : static_cast<int>(ch.range(0, n_int));
   // probes inside the polygon
   J probes = J::arr();
   const int np = static_cast<int>(ch.range(4, 16));
@@ -189,11 +193,14 @@ static Result check_world_surface(const J &c)
   feat["model"] = c.at("type").str(); feat["name"] = "f";
   feat["coordinates"] = c.at("polygon");
   J surf = J::arr();
-  if (c.get("bare", J(true)).boolean()) surf.push(J::arr({J(base)})); // the value of every corner that is not listed
+  const bool has_bare = c.get("bare", J(true)).boolean();
+  const size_t bare_pos = c.has("bare_pos") ? static_cast<size_t>(c.at("bare_pos").num()) : 0;
   std::vector<std::array<double, 3>> nodes;
   bool zero_corner_listed = false;
+  size_t li = 0;
   for (const auto &l : c.at("listed").a)
     {
+      if (has_bare && li++ == bare_pos) surf.push(J::arr({J(base)})); // the value of every corner that is not listed
       surf.push(J::arr({l[2], J::arr({jp(l[0].num(), l[1].num())})}));
       // a point listed twice: the later entry replaces the earlier one
       bool dup = false;
@@ -206,6 +213,8 @@ static Result check_world_surface(const J &c)
       if (c.at("corner_listed")[i].boolean()) { if (p[0].num() == 0 || p[1].num() == 0) zero_corner_listed = true; }
       else nodes.push_back({{p[0].num(), p[1].num(), base}});
     }
+  if (has_bare && li <= bare_pos) surf.push(J::arr({J(base)}));
+  if (bare_pos > 0 && has_bare) r.classes.push_back("bare entry after listed points");
   if (surf.size() == 0) surf.push(J::arr({J(base)}));
   feat[which] = surf;
   if (is_max) { /* min depth default 0 */ } else feat["max depth"] = 600e3;
